@@ -127,12 +127,15 @@ type mismatch struct {
 }
 
 type replayOut struct {
-	Cases      int            `json:"cases"`   // trees
-	Evals      int            `json:"evals"`   // tree x cfg x doc evaluations
-	Skipped    int            `json:"skipped"` // trees that could not be rendered or did not parse back to themselves
+	Cases      int            `json:"cases"`      // trees
+	Evals      int            `json:"evals"`      // tree x cfg x doc evaluations
+	Unmodelled int            `json:"unmodelled"` // evaluations for which the specification states no expectation
+	Skipped    int            `json:"skipped"`    // trees that could not be rendered or did not parse back to themselves
 	SkipWhy    map[string]int `json:"skipwhy"`
+	SkipText   []string       `json:"skiptext"`
 	ByOutcome  map[string]int `json:"byoutcome"`
 	Mismatches []mismatch     `json:"mismatches"`
+	Never      []mismatch     `json:"never"` // panics and (true, err) results: forbidden whatever the expression means
 	Samples    []interface{}  `json:"samples"`
 }
 
@@ -187,6 +190,7 @@ func cmdReplay(args []string) error {
 	wf := fs.String("world", "world.json", "world file")
 	cf := fs.String("cases", "cases.ndjson", "cases printed by TLC, one JSON object per line")
 	of := fs.String("out", "replay.json", "result file")
+	lits := fs.String("lits", "auto", "comma separated literal styles to render every tree in (auto, raw, bare, dq)")
 	fs.Parse(args)
 	w, docs, cfgs, err := loadWorld(*wf)
 	if err != nil {
@@ -213,46 +217,63 @@ func cmdReplay(args []string) error {
 		if err != nil {
 			return err
 		}
-		text, err := expr.Render(tree, expr.Style{})
-		if err != nil {
-			out.Skipped++
-			out.SkipWhy["render: "+err.Error()]++
-			continue
-		}
-		// the text must denote the tree it was rendered from (C15/C16 judge the parser; here a
-		// disagreement only means the case cannot be used)
-		ast, perr := grammar.Parse("", []byte(text))
-		if perr != nil {
-			out.Skipped++
-			out.SkipWhy["parse error"]++
-			continue
-		}
-		if !expr.Same(expr.FromAST(ast.(grammar.Expression)), tree, false) {
-			out.Skipped++
-			out.SkipWhy["parses to a different tree"]++
-			continue
-		}
-		for ci, cfg := range cfgs {
-			ev, o := run.Create(text, cfg.Options()...)
-			if ev == nil {
-				out.Skipped++
-				out.SkipWhy["create: "+o.O]++
+		seen := map[string]bool{}
+		for si, ls := range strings.Split(*lits, ",") {
+			text, err := expr.Render(tree, expr.Style{Lit: ls})
+			if err != nil {
+				if si == 0 {
+					out.Skipped++
+					out.SkipWhy["render: "+err.Error()]++
+				}
 				continue
 			}
-			for di, d := range docs[0] {
-				got := run.Eval(ev, d)
-				out.Evals++
-				out.ByOutcome[got.O]++
-				want := c.X[ci][di]
-				if got.O != want {
-					if len(out.Mismatches) < 200 {
-						out.Mismatches = append(out.Mismatches, mismatch{Text: text, Tree: tree, Doc: w.Docs[di].Name, DocI: di, Cfg: cfg.Name, Want: want, Got: got})
-					} else {
-						out.Mismatches = append(out.Mismatches[:200], mismatch{Text: "...more"})[:201]
-					}
+			if seen[text] {
+				continue
+			}
+			seen[text] = true
+			// the text must denote the tree it was rendered from (C15/C16 judge the parser; here a
+			// disagreement only means the case cannot be used)
+			ast, perr := grammar.Parse("", []byte(text))
+			if perr != nil {
+				out.Skipped++
+				out.SkipWhy["parse error"]++
+				if len(out.SkipText) < 10 {
+					out.SkipText = append(out.SkipText, text)
 				}
-				if len(out.Samples) < 5 && out.Evals%997 == 1 {
-					out.Samples = append(out.Samples, map[string]interface{}{"expr": text, "doc": w.Docs[di].Name, "cfg": cfg.Name, "spec": want, "impl": got.O})
+				continue
+			}
+			if !expr.Same(expr.FromAST(ast.(grammar.Expression)), tree, false) {
+				out.Skipped++
+				out.SkipWhy["parses to a different tree"]++
+				continue
+			}
+			for ci, cfg := range cfgs {
+				ev, o := run.Create(text, cfg.Options()...)
+				if ev == nil {
+					out.Skipped++
+					out.SkipWhy["create: "+o.O]++
+					continue
+				}
+				for di, d := range docs[0] {
+					got := run.Eval(ev, d)
+					out.Evals++
+					out.ByOutcome[got.O]++
+					want := c.X[ci][di]
+					if got.O != "T" && got.O != "F" && got.O != "E" && len(out.Never) < 200 {
+						out.Never = append(out.Never, mismatch{Text: text, Tree: tree, Doc: w.Docs[di].Name, DocI: di, Cfg: cfg.Name, Want: want, Got: got})
+					}
+					if want == "?" {
+						out.Unmodelled++
+					} else if got.O != want {
+						if len(out.Mismatches) < 200 {
+							out.Mismatches = append(out.Mismatches, mismatch{Text: text, Tree: tree, Doc: w.Docs[di].Name, DocI: di, Cfg: cfg.Name, Want: want, Got: got})
+						} else {
+							out.Mismatches = append(out.Mismatches[:200], mismatch{Text: "...more"})[:201]
+						}
+					}
+					if len(out.Samples) < 5 && out.Evals%997 == 1 {
+						out.Samples = append(out.Samples, map[string]interface{}{"expr": text, "doc": w.Docs[di].Name, "cfg": cfg.Name, "spec": want, "impl": got.O})
+					}
 				}
 			}
 		}
